@@ -100,6 +100,10 @@ func userAttrs(variant int) types.RecordMap {
 			present = i%3 == 0
 		case 5:
 			present = i%3 != 0
+		case 6:
+			present = i < 2
+		case 7:
+			present = i == 2 || i > 5
 		}
 		if present {
 			m[types.String(n)] = opt[n]
@@ -134,7 +138,7 @@ func buildEnvs() {
 		types.NewRecord(types.RecordMap{"ok": types.True, "who": uid("User", "ghost"), "rec": types.NewRecord(types.RecordMap{"a": types.Long(2), "b": types.String("")}), "a.b": types.NewRecord(types.RecordMap{}), "a": types.NewRecord(types.RecordMap{"b": types.NewRecord(types.RecordMap{})})}),
 	}
 	for ri, rq := range reqs {
-		for uv := 0; uv < 6; uv++ {
+		for uv := 0; uv < 8; uv++ {
 			for tagv := 0; tagv < 2; tagv++ {
 				for dv := 0; dv < 2; dv++ {
 					for presence := 0; presence < 3; presence++ {
@@ -146,7 +150,7 @@ func buildEnvs() {
 							dtags["k"] = types.String("v")
 						}
 						u1 := types.Entity{UID: uid("User", "u1"), Parents: types.NewEntityUIDSet(uid("Group", "g1")), Attributes: types.NewRecord(userAttrs(uv)), Tags: types.NewRecord(tags)}
-						u2 := types.Entity{UID: uid("User", "u2"), Parents: types.NewEntityUIDSet(), Attributes: types.NewRecord(userAttrs((uv + 1) % 6)), Tags: types.NewRecord(types.RecordMap{})}
+						u2 := types.Entity{UID: uid("User", "u2"), Parents: types.NewEntityUIDSet(), Attributes: types.NewRecord(userAttrs((uv + 1) % 8)), Tags: types.NewRecord(types.RecordMap{})}
 						g1 := types.Entity{UID: uid("Group", "g1"), Parents: types.NewEntityUIDSet(uid("Group", "g2"))}
 						g2 := types.Entity{UID: uid("Group", "g2")}
 						dattrs := types.RecordMap{"owner": uid("User", "u1"), "size": types.Long(5)}
@@ -890,6 +894,78 @@ func tagGuards() *core.Family {
 	}
 }
 
+// combinations of three guards: what a conjunction, a disjunction and an if-then-else of
+// guards establish is the union, the intersection and (condition + then) ∩ else of what
+// their parts establish; with three different guarded attributes the two sides of an
+// intersection have different sizes in every way.
+func guardCombinations() *core.Family {
+	tg := [][2]string{{"principal", "nick"}, {"principal", "score"}, {"principal", "flag"}}
+	h := func(i int) *Expr { return Has(Var(tg[i][0]), tg[i][1]) }
+	type form struct {
+		name string
+		e    *Expr
+	}
+	var forms []form
+	ops := []struct {
+		n  string
+		op Op
+	}{{"&&", OAnd}, {"||", OOr}}
+	nm := func(i int) string { return tg[i][1] }
+	for a := 0; a < 3; a++ {
+		forms = append(forms, form{nm(a), h(a)})
+		for b := 0; b < 3; b++ {
+			for _, o := range ops {
+				forms = append(forms, form{fmt.Sprintf("%s%s%s", nm(a), o.n, nm(b)), Bin(o.op, h(a), h(b))})
+			}
+			for c := 0; c < 3; c++ {
+				forms = append(forms, form{fmt.Sprintf("if %s then %s else %s", nm(a), nm(b), nm(c)), If(h(a), h(b), h(c))})
+				for _, o1 := range ops {
+					for _, o2 := range ops {
+						forms = append(forms,
+							form{fmt.Sprintf("(%s%s%s)%s%s", nm(a), o1.n, nm(b), o2.n, nm(c)), Bin(o2.op, Bin(o1.op, h(a), h(b)), h(c))},
+							form{fmt.Sprintf("%s%s(%s%s%s)", nm(a), o2.n, nm(b), o1.n, nm(c)), Bin(o2.op, h(a), Bin(o1.op, h(b), h(c)))})
+					}
+					for d := 0; d < 3; d++ {
+						forms = append(forms,
+							form{fmt.Sprintf("if %s then (%s%s%s) else %s", nm(d), nm(a), o1.n, nm(b), nm(c)), If(h(d), Bin(o1.op, h(a), h(b)), h(c))},
+							form{fmt.Sprintf("if %s then %s else (%s%s%s)", nm(d), nm(c), nm(a), o1.n, nm(b)), If(h(d), h(c), Bin(o1.op, h(a), h(b)))},
+							form{fmt.Sprintf("if (%s%s%s) then %s else %s", nm(a), o1.n, nm(b), nm(c), nm(d)), If(Bin(o1.op, h(a), h(b)), h(c), h(d))})
+					}
+				}
+			}
+		}
+	}
+	uses := []func(g *Expr, k int) *Expr{
+		func(g *Expr, k int) *Expr { x := Access(Var(tg[k][0]), tg[k][1]); return Bin(OAnd, g, Bin(OEq, x, x)) },
+		func(g *Expr, k int) *Expr {
+			x := Access(Var(tg[k][0]), tg[k][1])
+			return If(g, Bin(OEq, x, x), L(Bool(false)))
+		},
+		func(g *Expr, k int) *Expr {
+			x := Access(Var(tg[k][0]), tg[k][1])
+			return Bin(OOr, Un(ONot, g), Bin(OEq, x, x))
+		},
+	}
+	n := len(forms) * len(uses) * 3
+	return &core.Family{
+		Name: "guard-combinations",
+		Desc: fmt.Sprintf("%d combinations of up to four `has` guards over three optional attributes (every &&/|| tree of 1-3 guards, every if-then-else of guards, if-then-else with one compound part) x %d ways of using the result x each of the 3 attributes read", len(forms), len(uses)),
+		N:    int64(n),
+		Run: func(t *core.T, i int64) {
+			x := int(i)
+			k := x % 3
+			x /= 3
+			u := uses[x%len(uses)]
+			f := forms[x/len(uses)]
+			e := u(f.e, k)
+			if checkCond(t, "guard-combination", e, []bool{true}) {
+				t.Nontrivial()
+			}
+			t.SampleF(e.String)
+		},
+	}
+}
+
 func Check() *core.Check {
 	return &core.Check{
 		ID:        "C15",
@@ -909,7 +985,7 @@ func Check() *core.Check {
 				return []*core.Family{{Name: "setup", Desc: "schema resolves", N: 1, Run: func(t *core.T, i int64) { t.Fail("harness-schema", schemaText, "resolves", e.Error()) }}}
 			}
 			sp := specs()
-			fams := []*core.Family{guards(tier), clauseGuards(), tagGuards(), unions(), actionInGuards(), entityInGuards(), capabilityKeys(), depth1("depth1-unary", sp, leaves(), 1)}
+			fams := []*core.Family{guards(tier), guardCombinations(), clauseGuards(), tagGuards(), unions(), actionInGuards(), entityInGuards(), capabilityKeys(), depth1("depth1-unary", sp, leaves(), 1)}
 			if tier == "thorough" {
 				fams = append(fams, depth1("depth1-binary", sp, leaves(), 2), depth1("depth1-if", gen.Ternary, leavesSmall(), 3))
 			} else {
